@@ -1,4 +1,5 @@
 """C12 - weighted union / intersection follow the documented formula."""
+from ..harness import safe_repr as _srepr  # noqa: E402
 from fractions import Fraction
 
 from .. import families, gen, setops
@@ -167,7 +168,7 @@ def run_case(fam, impl, rng, rec, uni, vals, i, big_weights=None):
     combo = ('map' if va is not None else 'set') + '-' + \
         ('map' if vb is not None else 'set')
     snap_a, snap_b = setops.snapshot(a), setops.snapshot(b)
-    rec.journal(repr((desc, kinda, kindb, ka, kb, w1, w2)))
+    rec.journal(_srepr((desc, kinda, kindb, ka, kb, w1, w2)))
     keep_conns = None
     if i % 5 in (0, 1):
         # operands as they come out of a database: ghosts
